@@ -9,10 +9,12 @@
    (tools/c15.py) and must say that every trait method is a single critical section.
    Partial by nature: fairness and wake-ups of async_lock::Mutex and of the executor are run-time
    behaviour; they are exercised by the deterministic-scheduler runs of tools/c15.py. *)
+From HC Require Import Base Crypto Storage Core Refine ClearRefine Unified1 Unified3 SharedInst.
 From Coq Require Import String.
 From Coq Require Import List Bool Arith.
 From HC Require Import Shared SharedShape.
 Import ListNotations.
+Local Open Scope nat_scope.
 
 Definition all_atomic (l : list (string * bool)) : bool := forallb snd l.
 
@@ -79,6 +81,220 @@ Example C15_concrete_interleaving :
   seq_run a_l0 a_body a_res [5] (map (fun e => snd (fst e)) (log cfg)) = (shared cfg, map snd (log cfg)).
 Proof. exact demo_run. Qed.
 
+(* ---- the generic theorem instantiated with the real core model (SharedInst.v); statements in N scope ---- *)
+Local Open Scope N_scope.
+
+Theorem C15_real_core_concurrent_runs_are_serial :
+  forall cr : crypto,
+         OplogFacts.crc_ok cr ->
+         (forall x : bytes, Datatypes.length (cr_hash cr x) = 32%nat) ->
+         (forall x : bytes, all_zero (cr_hash cr x) = false) ->
+         (forall x : bytes, bytes_ok (cr_hash cr x) = true) ->
+         (forall sk m : bytes, Datatypes.length (cr_sign cr sk m) = 64%nat) ->
+         (forall sk m : bytes, bytes_ok (cr_sign cr sk m) = true) ->
+         forall (L : Type) (l0 : scall -> L) (body : scall -> list (sstate * L -> sstate * L))
+           (res : scall -> L -> uobs),
+         (forall (c : scall) (s : sstate), atomic l0 body res c s = sstep cr c s) ->
+         forall (progs : list (list scall)) (cfg : config sstate L uobs scall) (c : core) 
+           (d : disk) (j : list sop) (ev : list event) (bs : list bytes) (cl : N -> bool) 
+           (sk : bytes),
+         FInv cr c d bs cl ->
+         kp_secret (c_keypair c) = Some sk ->
+         Forall (fun p : list scall => wf_u (map to_uop p) (N.of_nat (Datatypes.length bs))) progs ->
+         sumN (map len (bs ++ uappended (map to_uop (concat progs)))) <= u64_max ->
+         NODE_SIZE * (2 * N.of_nat (Datatypes.length (bs ++ uappended (map to_uop (concat progs))))) <= u64_max ->
+         steps l0 body res (init (c, {| w_disk := d; w_journal := j; w_events := ev |}) progs) cfg ->
+         let cs := calls (log cfg) in
+         exists s1 : sstate,
+           (holder cfg = None -> s1 = shared cfg) /\
+           (model_run cr c s1 cs (results (log cfg)) bs cl \/ frame_stop cs (results (log cfg)) bs cl).
+Proof. exact shared_unified. Qed.
+
+Theorem C15_real_core_finished_runs :
+  forall cr : crypto,
+         OplogFacts.crc_ok cr ->
+         (forall x : bytes, Datatypes.length (cr_hash cr x) = 32%nat) ->
+         (forall x : bytes, all_zero (cr_hash cr x) = false) ->
+         (forall x : bytes, bytes_ok (cr_hash cr x) = true) ->
+         (forall sk m : bytes, Datatypes.length (cr_sign cr sk m) = 64%nat) ->
+         (forall sk m : bytes, bytes_ok (cr_sign cr sk m) = true) ->
+         forall (L : Type) (l0 : scall -> L) (body : scall -> list (sstate * L -> sstate * L))
+           (res : scall -> L -> uobs),
+         (forall (c : scall) (s : sstate), atomic l0 body res c s = sstep cr c s) ->
+         forall (progs : list (list scall)) (cfg : config sstate L uobs scall) (c : core) 
+           (d : disk) (j : list sop) (ev : list event) (bs : list bytes) (cl : N -> bool) 
+           (sk : bytes),
+         FInv cr c d bs cl ->
+         kp_secret (c_keypair c) = Some sk ->
+         Forall (fun p : list scall => wf_u (map to_uop p) (N.of_nat (Datatypes.length bs))) progs ->
+         sumN (map len (bs ++ uappended (map to_uop (concat progs)))) <= u64_max ->
+         NODE_SIZE * (2 * N.of_nat (Datatypes.length (bs ++ uappended (map to_uop (concat progs))))) <= u64_max ->
+         steps l0 body res (init (c, {| w_disk := d; w_journal := j; w_events := ev |}) progs) cfg ->
+         (forall tk : task sstate L uobs scall, In tk (tasks cfg) -> st tk = Idle /\ prog tk = []) ->
+         let cs := calls (log cfg) in
+         Datatypes.length (log cfg) = list_sum (map (Datatypes.length (A:=scall)) progs) /\
+         (forall t : nat, task_calls t (log cfg) = nth t progs []) /\
+         (forall (t : nat) (tk : task sstate L uobs scall),
+          nth_error (tasks cfg) t = Some tk ->
+          out tk = map snd (filter (fun e : nat * scall * uobs => (fst (fst e) =? t)%nat) (log cfg))) /\
+         holder cfg = None /\
+         (model_run cr c (shared cfg) cs (results (log cfg)) bs cl \/ frame_stop cs (results (log cfg)) bs cl).
+Proof. exact shared_unified_finished. Qed.
+
+Theorem C15_real_core_append_outcomes_gap_free :
+  forall cr : crypto,
+         OplogFacts.crc_ok cr ->
+         (forall x : bytes, Datatypes.length (cr_hash cr x) = 32%nat) ->
+         (forall x : bytes, all_zero (cr_hash cr x) = false) ->
+         (forall x : bytes, bytes_ok (cr_hash cr x) = true) ->
+         (forall sk m : bytes, Datatypes.length (cr_sign cr sk m) = 64%nat) ->
+         (forall sk m : bytes, bytes_ok (cr_sign cr sk m) = true) ->
+         forall (L : Type) (l0 : scall -> L) (body : scall -> list (sstate * L -> sstate * L))
+           (res : scall -> L -> uobs),
+         (forall (c : scall) (s : sstate), atomic l0 body res c s = sstep cr c s) ->
+         forall (progs : list (list scall)) (cfg : config sstate L uobs scall) (c : core) 
+           (d : disk) (j : list sop) (ev : list event) (bs : list bytes) (cl : N -> bool) 
+           (sk : bytes),
+         FInv cr c d bs cl ->
+         kp_secret (c_keypair c) = Some sk ->
+         Forall (fun p : list scall => wf_u (map to_uop p) (N.of_nat (Datatypes.length bs))) progs ->
+         sumN (map len (bs ++ uappended (map to_uop (concat progs)))) <= u64_max ->
+         NODE_SIZE * (2 * N.of_nat (Datatypes.length (bs ++ uappended (map to_uop (concat progs))))) <= u64_max ->
+         steps l0 body res (init (c, {| w_disk := d; w_journal := j; w_events := ev |}) progs) cfg ->
+         forall (i t : nat) (f : option bool) (batch : list bytes) (r : uobs),
+         nth_error (log cfg) i = Some (t, SAppend f batch, r) ->
+         (forall k : nat, (k < i)%nat -> nth_error (results (log cfg)) k <> Some frame_panic) ->
+         let before := firstn i (calls (log cfg)) in
+         r =
+         UOAppend
+           (Ok
+              (N.of_nat (Datatypes.length bs) + sumN (map cblocks before) + N.of_nat (Datatypes.length batch),
+               sumN (map len bs) + sumN (map cbytes before) + sumN (map len batch))) \/ 
+         r = frame_panic.
+Proof. exact shared_append_outcome. Qed.
+
+Theorem C15_real_core_get_outcomes :
+  forall cr : crypto,
+         OplogFacts.crc_ok cr ->
+         (forall x : bytes, Datatypes.length (cr_hash cr x) = 32%nat) ->
+         (forall x : bytes, all_zero (cr_hash cr x) = false) ->
+         (forall x : bytes, bytes_ok (cr_hash cr x) = true) ->
+         (forall sk m : bytes, Datatypes.length (cr_sign cr sk m) = 64%nat) ->
+         (forall sk m : bytes, bytes_ok (cr_sign cr sk m) = true) ->
+         forall (L : Type) (l0 : scall -> L) (body : scall -> list (sstate * L -> sstate * L))
+           (res : scall -> L -> uobs),
+         (forall (c : scall) (s : sstate), atomic l0 body res c s = sstep cr c s) ->
+         forall (progs : list (list scall)) (cfg : config sstate L uobs scall) (c : core) 
+           (d : disk) (j : list sop) (ev : list event) (bs : list bytes) (cl : N -> bool) 
+           (sk : bytes),
+         FInv cr c d bs cl ->
+         kp_secret (c_keypair c) = Some sk ->
+         Forall (fun p : list scall => wf_u (map to_uop p) (N.of_nat (Datatypes.length bs))) progs ->
+         sumN (map len (bs ++ uappended (map to_uop (concat progs)))) <= u64_max ->
+         NODE_SIZE * (2 * N.of_nat (Datatypes.length (bs ++ uappended (map to_uop (concat progs))))) <= u64_max ->
+         steps l0 body res (init (c, {| w_disk := d; w_journal := j; w_events := ev |}) progs) cfg ->
+         forall (i t : nat) (idx : N) (r : uobs),
+         nth_error (log cfg) i = Some (t, SGet idx, r) ->
+         (forall k : nat, (k < i)%nat -> nth_error (results (log cfg)) k <> Some frame_panic) ->
+         let ops := map to_uop (firstn i (calls (log cfg))) in
+         let bs_i := bs ++ uappended ops in
+         r =
+         UOGet
+           (Ok
+              (if held (N.of_nat (Datatypes.length bs_i)) (snd (ustate ops bs cl)) idx
+               then Some (nth (N.to_nat idx) bs_i [])
+               else None)).
+Proof. exact shared_get_outcome. Qed.
+
+Theorem C15_real_core_blocks_readable_at_implied_indices :
+  forall cr : crypto,
+         OplogFacts.crc_ok cr ->
+         (forall x : bytes, Datatypes.length (cr_hash cr x) = 32%nat) ->
+         (forall x : bytes, all_zero (cr_hash cr x) = false) ->
+         (forall x : bytes, bytes_ok (cr_hash cr x) = true) ->
+         (forall sk m : bytes, Datatypes.length (cr_sign cr sk m) = 64%nat) ->
+         (forall sk m : bytes, bytes_ok (cr_sign cr sk m) = true) ->
+         forall (L : Type) (l0 : scall -> L) (body : scall -> list (sstate * L -> sstate * L))
+           (res0 : scall -> L -> uobs),
+         (forall (c : scall) (s : sstate), atomic l0 body res0 c s = sstep cr c s) ->
+         forall (progs : list (list scall)) (cfg : config sstate L uobs scall) (c : core) 
+           (d : disk) (j : list sop) (ev : list event) (bs : list bytes) (cl : N -> bool) 
+           (sk : bytes),
+         FInv cr c d bs cl ->
+         kp_secret (c_keypair c) = Some sk ->
+         Forall (fun p : list scall => wf_u (map to_uop p) (N.of_nat (Datatypes.length bs))) progs ->
+         sumN (map len (bs ++ uappended (map to_uop (concat progs)))) <= u64_max ->
+         NODE_SIZE * (2 * N.of_nat (Datatypes.length (bs ++ uappended (map to_uop (concat progs))))) <= u64_max ->
+         steps l0 body res0 (init (c, {| w_disk := d; w_journal := j; w_events := ev |}) progs) cfg ->
+         forall (i t : nat) (f : option bool) (batch : list bytes) (n b : N) (k : nat),
+         holder cfg = None ->
+         ~ In frame_panic (results (log cfg)) ->
+         nth_error (log cfg) i = Some (t, SAppend f batch, UOAppend (Ok (n, b))) ->
+         (k < Datatypes.length batch)%nat ->
+         let idx := n - N.of_nat (Datatypes.length batch) + N.of_nat k in
+         covers (map to_uop (skipn (S i) (calls (log cfg)))) idx = false ->
+         let cF := fst (shared cfg) in
+         let dF := w_disk (snd (shared cfg)) in
+         core_has cF idx = true /\
+         (forall (j' : list sop) (ev' : list event),
+          core_get idx cF {| w_disk := dF; w_journal := j'; w_events := ev' |} =
+          (cF, {| w_disk := dF; w_journal := j'; w_events := ev' |}, Ok (Some (nth k batch [])))).
+Proof. exact shared_blocks_readable. Qed.
+
+Theorem C15_real_core_split_append_instance :
+  forall cr : crypto,
+         OplogFacts.crc_ok cr ->
+         (forall x : bytes, Datatypes.length (cr_hash cr x) = 32%nat) ->
+         (forall x : bytes, all_zero (cr_hash cr x) = false) ->
+         (forall x : bytes, bytes_ok (cr_hash cr x) = true) ->
+         (forall sk m : bytes, Datatypes.length (cr_sign cr sk m) = 64%nat) ->
+         (forall sk m : bytes, bytes_ok (cr_sign cr sk m) = true) ->
+         forall (progs : list (list scall)) (c : core) (d : disk) (j : list sop) (ev : list event)
+           (bs : list bytes) (cl : N -> bool) (sk : bytes),
+         FInv cr c d bs cl ->
+         kp_secret (c_keypair c) = Some sk ->
+         Forall (fun p : list scall => wf_u (map to_uop p) (N.of_nat (Datatypes.length bs))) progs ->
+         sumN (map len (bs ++ uappended (map to_uop (concat progs)))) <= u64_max ->
+         NODE_SIZE * (2 * N.of_nat (Datatypes.length (bs ++ uappended (map to_uop (concat progs))))) <= u64_max ->
+         forall cfg : config sstate slocal uobs scall,
+         steps split_l0 (split_body cr) split_res
+           (init (c, {| w_disk := d; w_journal := j; w_events := ev |}) progs) cfg ->
+         let cs := calls (log cfg) in
+         exists s1 : sstate,
+           (holder cfg = None -> s1 = shared cfg) /\
+           (model_run cr c s1 cs (results (log cfg)) bs cl \/ frame_stop cs (results (log cfg)) bs cl).
+Proof. exact shared_core_split. Qed.
+
+Theorem C15_real_core_realtime :
+  forall cr : crypto,
+         OplogFacts.crc_ok cr ->
+         (forall x : bytes, Datatypes.length (cr_hash cr x) = 32%nat) ->
+         (forall x : bytes, all_zero (cr_hash cr x) = false) ->
+         (forall x : bytes, bytes_ok (cr_hash cr x) = true) ->
+         (forall sk m : bytes, Datatypes.length (cr_sign cr sk m) = 64%nat) ->
+         (forall sk m : bytes, bytes_ok (cr_sign cr sk m) = true) ->
+         forall (L : Type) (l0 : scall -> L) (body : scall -> list (sstate * L -> sstate * L))
+           (res : scall -> L -> uobs),
+         (forall (c : scall) (s : sstate), atomic l0 body res c s = sstep cr c s) ->
+         forall (progs : list (list scall)) (cfg : config sstate L uobs scall) (k : clock uobs scall)
+           (c : core) (d : disk) (j : list sop) (ev : list event) (bs : list bytes) 
+           (cl : N -> bool) (sk : bytes),
+         FInv cr c d bs cl ->
+         kp_secret (c_keypair c) = Some sk ->
+         Forall (fun p : list scall => wf_u (map to_uop p) (N.of_nat (Datatypes.length bs))) progs ->
+         sumN (map len (bs ++ uappended (map to_uop (concat progs)))) <= u64_max ->
+         NODE_SIZE * (2 * N.of_nat (Datatypes.length (bs ++ uappended (map to_uop (concat progs))))) <= u64_max ->
+         stepsT l0 body res (initT (c, {| w_disk := d; w_journal := j; w_events := ev |}) progs) (cfg, k) ->
+         let cs := calls (log cfg) in
+         map fst (tlog k) = log cfg /\
+         (forall (i1 i2 : nat) (a b : nat * scall * uobs * (nat * nat)),
+          nth_error (tlog k) i1 = Some a ->
+          nth_error (tlog k) i2 = Some b -> (fin a < sta b)%nat -> (i1 < i2)%nat) /\
+         (exists s1 : sstate,
+            (holder cfg = None -> s1 = shared cfg) /\
+            (model_run cr c s1 cs (results (log cfg)) bs cl \/ frame_stop cs (results (log cfg)) bs cl)).
+Proof. exact shared_unified_realtime. Qed.
+
 Print Assumptions C15_every_method_is_one_critical_section.
 Print Assumptions C15_mutex_serializable.
 Print Assumptions C15_results_and_program_order.
@@ -86,3 +302,13 @@ Print Assumptions C15_no_partial_observation.
 Print Assumptions C15_real_time_order.
 Print Assumptions C15_every_run_has_a_clock.
 Print Assumptions C15_append_lengths_gap_free.
+Print Assumptions C15_real_core_concurrent_runs_are_serial.
+Print Assumptions C15_real_core_finished_runs.
+Print Assumptions C15_real_core_append_outcomes_gap_free.
+Print Assumptions C15_real_core_get_outcomes.
+Print Assumptions C15_real_core_blocks_readable_at_implied_indices.
+Print Assumptions C15_real_core_split_append_instance.
+Print Assumptions C15_real_core_realtime.
+Print Assumptions SharedInst.toy_shared_split_run.
+Print Assumptions SharedInst.toy_shared_split_partial_unobservable.
+Print Assumptions SharedInst.toy_shared_end_to_end.
